@@ -1,6 +1,8 @@
 #![allow(dead_code)]
 mod c07;
 mod c13;
+mod c14;
+mod c15;
 mod c17;
 mod dynpeer;
 mod routes;
@@ -107,6 +109,28 @@ fn plan(prop: &str) -> Plan {
             real: &["all nine decoding routes (toml::de, toml_edit::de::*, impl Deserializer for toml::Value / toml::Table)", "toml::Value::try_from / Table::try_from, toml::ser::ValueSerializer, toml_edit::ser::ValueSerializer", "the five text serializers (document production)", "toml_edit parser", "serde's primitive impls, toml_datetime impls, toml::Value Deserialize"],
             stub: &["reader peer R(T) incl. DynVal root adapter", "writer peer W(T,v)", "seam interposers (log events, inject F-VIS)", "DocGen renderer + type inference", "reference reader (probe only, not asserted)"],
             assumptions: &["only what C13 states is asserted: successful routes agree; on text produced by serializing a value of T (must-succeed class) every route succeeds and returns it; try_from equals the text route when both succeed; a reader failure is never swallowed and nothing panics", "which value is *right* for a hand-written document is C02's business: comparison with the reference reader is a probe, not an assertion", "peer stubs behave like serde_derive output (self-tested)"],
+        },
+        "C14" => Plan {
+            level: "exploration",
+            runs_quick: 400_000,
+            runs_thorough: 20_000_000,
+            builds_quick: &["default", "preserve_order"],
+            builds_thorough: ALL_BUILDS,
+            rule: "One evaluation = one seeded scenario: a document (DocGen layout plan rendered with multi-byte text, BOM, CRLF, comments, odd whitespace, dotted keys, header / array-of-tables / inline layouts, four string kinds, exotic number and date-time spellings; or one of the toml-test 1.0.0 valid documents) and a reader type inferred from its tree in which the reader peer asks for a span (serde_spanned protocol) at a seeded subset of nodes - values, keys, tables, arrays, array-of-tables elements, enum payloads, options, newtypes, the root; 100%, 60%, 25% or 10% of the nodes. Every span() of the parsed ImDocument is checked (bounds, char boundaries, nesting, slice re-parses to the same key/value, equals the byte range DocGen recorded when it wrote the token); the reader decodes through the four span-bearing routes with and without the Spanned wrappers (same verdict, same value, delivered span = the tree's own span()), and through the editable-document route where no span may survive. Non-trivial = reader type + document tree have >= 3 nodes; distinct = distinct conversation shape (seam event sequence with payloads erased), counted with a hash set.",
+            real: &["toml_edit parser (all span producers), ImDocument / DocumentMut / into_mut / despan", "toml_edit::de::* incl. SpannedDeserializer, KeyDeserializer; toml::de wrappers", "Value::from_str / Key::from_str (slice re-parse)", "serde's primitive impls"],
+            stub: &["reader peer R(T) with a stub visitor for the serde_spanned protocol (same call sequence as serde_spanned::Spanned<T>)", "DocGen renderer and its expected-span table", "seam interposers (logging only)"],
+            assumptions: &["DocGen only uses constructs the TOML specification shows as valid (class U1 excluded); a generated document the library rejects is counted, not reported", "for tables that have no span of their own (dotted-key / header-implied) only bounds and containment of children are asserted for a delivered span", "the stub Spanned visitor follows serde_spanned's protocol (self-tested against the real type)"],
+        },
+        "C15" => Plan {
+            level: "fault_enumeration",
+            runs_quick: 60_000,
+            runs_thorough: 1_500_000,
+            builds_quick: &["default", "preserve_order"],
+            builds_thorough: ALL_BUILDS,
+            rule: "One evaluation = one seeded (document, reader type) pair: a DocGen / toml-test document with an inferred reader type (some deliberately mismatching, some with Spanned or toml::Value leaves), or the text obtained by serializing a generated value with its mirrored type. For each of the seven document routes the reader peer is first run fault-free to count its visitor callbacks n; then a failure is injected at ENTRY and at EXIT of EVERY callback k = 0..n-1 (F-VIS, exhaustive in the fault dimension up to 160 callbacks), one execution per position, and every distinct error obtained is rendered into a sink that fails at EVERY write_str (F-SINK). Non-trivial = reader type + document tree have >= 3 nodes; distinct = distinct conversation shape of the whole evaluation (seam event sequences of all its executions, payloads erased), counted with a hash set.",
+            real: &["toml_edit::de::* (ValueDeserializer, TableDeserializer/TableMapAccess, ArrayDeserializer, KeyDeserializer, TableEnumDeserializer, SpannedDeserializer, DatetimeDeserializer), toml_edit::de::Error / TomlError (span, keys, raw, Display)", "toml::de wrappers, impl Deserializer for toml::Value / toml::Table, toml::de::Error", "toml_edit parser (document + spans used as expected locations via Item::span()/Key::span())", "serde's primitive impls, toml_datetime / toml::Value Deserialize"],
+            stub: &["reader peer R(T) + DynVal root adapter", "seam interposers: inject the failure, track the reader's own path / hint stack / key ordinal (never read back from the library)", "failing fmt::Write sink", "DocGen + type inference"],
+            assumptions: &["only the second sentence of C15 is decided (errors raised while deserializing a valid document); errors for rejected texts are not", "expected locations are the library's own Item::span()/Key::span() at the reader-tracked path (their correctness is C14's check)", "an error whose message no longer contains the injected marker is not attributed to the fault: location clauses are skipped for it and it is counted (probe foreign_error)", "single-value deserializers (R7) are not part of this check", "exhaustive only in the fault position; documents and types are sampled"],
         },
         "C17" => Plan {
             level: "exploration",
